@@ -311,10 +311,8 @@ def model_mismatches(pid: str, imports: list[str], run_def: str, eqb: str,
         f = d / f'cases_{k}.v'
         imp = '\n'.join(f'From BA Require Import {m}.' for m in imports)
         body = (f'{imp}\n{_COQ_HEADER}Open Scope Z_scope.\n'
-                f'Definition cases := [\n  ' + ';\n  '.join(cs) + '\n].\n'
-                f'Definition observed := [\n  ' + ';\n  '.join(ob) + '\n].\n'
-                f'Definition model_out := Eval vm_compute in (map ({run_def}) cases).\n'
-                f'Eval vm_compute in (mismatches ({eqb}) model_out observed).\n')
+                f'Definition model_out := Eval vm_compute in (map ({run_def}) [\n  ' + ';\n  '.join(cs) + '\n]).\n'
+                f'Eval vm_compute in (mismatches ({eqb}) model_out [\n  ' + ';\n  '.join(ob) + '\n]).\n')
         f.write_text(body)
         files.append(f)
         offsets.append(i)
